@@ -32,7 +32,13 @@ fn main() {
             Err(e) => println!("type_check: rejected: {e}"),
         }
         match rooc::RoocParser::new(src.clone()).parse_and_transform(vec![], &indexmap::IndexMap::new()) {
-            Ok(m) => println!("model:\n{m}"),
+            Ok(m) => {
+                println!("model:\n{m}");
+                match rooc::Linearizer::linearize(m) {
+                    Ok(l) => println!("linear model:\n{l}"),
+                    Err(e) => println!("linearization error: {e}"),
+                }
+            }
             Err(e) => println!("error: {e}"),
         }
         return;
